@@ -6,7 +6,6 @@ edits, clones and container assignments keeps the invariant (`steps_sound`).
 -/
 import Ajson.Proofs.CloneIso
 import Ajson.Proofs.History
-import Ajson.Proofs.SetContainer
 namespace Ajson.Proofs
 open Ajson Ajson.Heap
 
@@ -423,58 +422,34 @@ theorem clone_sound {h : Heap} (hs : Struct h) (ha : Acyc h) (n : Nat) (hn : n <
         omega
       · rw [get_default H2 m (by omega)] at hq; cases hq
 
-/-! ### histories of edits and clones -/
-
-/-- one step of a history: an edit request, `Clone()` of a node, or SetArray / SetObject with any elements -/
-inductive Step
-  | edit (e : Edit)
-  | clone (n : Nat)
-  | setArray (n : Nat) (ids : List Nat)
-  | setObject (n : Nat) (kv : List (Bytes × Nat))
-
-def Step.names : Step → List Nat
-  | .edit e => e.names
-  | .clone n => [n]
-  | .setArray n ids => n :: ids
-  | .setObject n kv => n :: kv.map (·.2)
-
-def Step.run (h : Heap) : Step → Heap
-  | .edit e => e.run h
-  | .clone n => (h.clone n).1
-  | .setArray n ids => (h.update (some n) (.arr ids)).1
-  | .setObject n kv => (h.update (some n) (.obj kv)).1
-
-/-- every step names nodes that exist when it is made — including the nodes earlier clones have made -/
-def ValidSteps : Heap → List Step → Prop
-  | _, [] => True
-  | h, s :: ss => (∀ x ∈ s.names, x < h.size) ∧ ValidSteps (s.run h) ss
-
-theorem Step.sound {h : Heap} (hs : Struct h) (ha : Acyc h) (s : Step) (hnames : ∀ x ∈ s.names, x < h.size) :
-    Struct (s.run h) ∧ Acyc (s.run h) ∧ h.size ≤ (s.run h).size := by
-  cases s with
-  | edit e =>
-    obtain ⟨a, b, c⟩ := Edit.sound hs ha e hnames
-    exact ⟨a, b, Nat.le_of_eq c.symm⟩
-  | clone n =>
-    obtain ⟨a, b, c, _⟩ := clone_sound hs ha n (hnames n (by simp [Step.names]))
-    exact ⟨a, b, Nat.le_of_lt c⟩
-  | setArray n ids =>
-    obtain ⟨a, b, c⟩ := setArray_sound hs ha n (hnames n (by simp [Step.names])) ids (fun x hx => hnames x (by simp [Step.names, hx]))
-    exact ⟨a, b, Nat.le_of_eq c.symm⟩
-  | setObject n kv =>
-    obtain ⟨a, b, c⟩ := setObject_sound hs ha n (hnames n (by simp [Step.names])) kv
-      (fun p hp => hnames p.2 (by simp only [Step.names, List.mem_cons, List.mem_map]; exact Or.inr ⟨p, hp, rfl⟩))
-    exact ⟨a, b, Nat.le_of_eq c.symm⟩
-
-/-- **any history of edits, clones and SetArray / SetObject**, each step on any nodes that exist at that moment (the copies included), leaves a sound
-acyclic heap -/
-theorem steps_sound : ∀ (ss : List Step) (h : Heap), Struct h → Acyc h → ValidSteps h ss →
-    Struct (ss.foldl Step.run h) ∧ Acyc (ss.foldl Step.run h) ∧ h.size ≤ (ss.foldl Step.run h).size
-  | [], _, hs, ha, _ => ⟨hs, ha, Nat.le_refl _⟩
-  | s :: ss, h, hs, ha, hv => by
-    obtain ⟨s1, a1, z1⟩ := Step.sound hs ha s hv.1
-    obtain ⟨s2, a2, z2⟩ := steps_sound ss (s.run h) s1 a1 hv.2
-    simp only [List.foldl_cons]
-    exact ⟨s2, a2, Nat.le_trans z1 z2⟩
+/-- in the heap after `Clone()` every new node but the copy's root hangs under an EARLIER new node; the root has no parent -/
+theorem clone_new_parents {h : Heap} (hs : Struct h) (ha : Acyc h) (n : Nat) (hn : n < h.size) :
+    ((h.clone n).1.get h.size).parent = none ∧
+    ∀ m q : Nat, h.size ≤ m → ((h.clone n).1.get m).parent = some q → h.size ≤ q ∧ q < m := by
+  have ht := clone_hypothesis hs ha n hn
+  have snd := cloneAux_sound h.size h h.size n (Nat.le_refl _) ht hs
+  obtain ⟨r1, r2, r3, _, _, _⟩ := cloneAux_ok h.size h n ht
+  have hc : ((cloneAux h.size h n).2 : Nat) = h.size := r1
+  unfold Heap.clone setReference
+  simp only []
+  generalize (cloneAux h.size h n).1 = H1 at *
+  generalize (cloneAux h.size h n).2 = c at *
+  subst hc
+  generalize hH2 : H1.modify h.size (fun r => { r with parent := none, key := none, index := none }) = H2
+  have sz2 : H2.size = H1.size := by rw [← hH2]; simp
+  have get2 : ∀ m : Nat, m ≠ h.size → H2.get m = H1.get m := fun m hm => by rw [← hH2, get_modify_other _ _ _ _ hm]
+  have getRoot : H2.get h.size = { H1.get h.size with parent := none, key := none, index := none } := by
+    rw [← hH2, get_modify]; simp [r2]
+  refine ⟨by rw [getRoot], ?_⟩
+  intro m q hm hq
+  by_cases hmr : m = h.size
+  · subst hmr; rw [getRoot] at hq; cases hq
+  · by_cases hm2 : m < H1.size
+    · rw [get2 m hmr] at hq
+      obtain ⟨q', p1, p2, p3, _⟩ := (snd m hm hm2).2 (by omega)
+      rw [p1] at hq
+      simp only [Option.some.injEq] at hq
+      omega
+    · rw [get_default H2 m (by omega)] at hq; cases hq
 
 end Ajson.Proofs
